@@ -634,3 +634,180 @@ func ruleReportConnLookedUp(w *World, r *Report, prop, rule string) {
 	}
 	r.floor(rule+" report dispatch sites", n, 1)
 }
+
+// ruleLoopErrorExamined: a datapath write that fails inside a per-rule loop ends the request there: the error
+// of the call is looked at before the loop goes round again (an error kept in a variable that the next
+// iteration overwrites is lost unless it was the last one — the request is answered "accepted").
+func ruleLoopErrorExamined(w *World, r *Report, prop, rule, fname string, callees []string) {
+	f := w.Fn(prop, fname)
+	n := 0
+	for _, c := range callsIn(f, func(c ssa.CallInstruction) bool {
+		g := staticCallee(c)
+		if g == nil {
+			return false
+		}
+		for _, nm := range callees {
+			if g.Name() == nm {
+				return true
+			}
+		}
+		return false
+	}) {
+		call, ok := c.(*ssa.Call)
+		if !ok {
+			continue
+		}
+		// inside a loop?
+		var hdr *ssa.BasicBlock
+		for _, b := range f.Blocks {
+			back := false
+			for _, p := range b.Preds {
+				if b.Dominates(p) {
+					back = true
+				}
+			}
+			if back && naturalLoop(b)[call.Block()] && (hdr == nil || naturalLoop(hdr)[b]) {
+				hdr = b
+			}
+		}
+		if hdr == nil || len(hdr.Instrs) == 0 {
+			continue
+		}
+		n++
+		var errV ssa.Value = call
+		if tup, isTuple := call.Type().(*types.Tuple); isTuple {
+			errV = extractOf(call, tup.Len()-1)
+		}
+		tested := func(i ssa.Instruction) bool {
+			ifi, ok := i.(*ssa.If)
+			if !ok {
+				return false
+			}
+			bo, ok := ifi.Cond.(*ssa.BinOp)
+			return ok && (bo.Op == token.NEQ || bo.Op == token.EQL) && ((bo.X == errV && isNilConst(bo.Y)) || (bo.Y == errV && isNilConst(bo.X)))
+		}
+		first := hdr.Instrs[0]
+		hit := reach(f, call, func(i ssa.Instruction) bool { return i == first }, tested, nil)
+		r.check(errV != nil && hit == nil, rule, w.FuncName(f), "the error of "+staticCallee(c).Name()+" is examined before the next iteration", w.Pos(call.Pos()), "tested against nil on every way back to the loop head", "the loop goes on to the next rule without looking at the error of "+staticCallee(c).Name()+" (it is kept in a variable the next iteration overwrites): a failure for any rule but the last is forgotten and the request is answered 'accepted'")
+	}
+	r.floor(rule+" error-returning datapath calls inside loops of "+fname, n, 1)
+}
+
+// ruleClearDeletesWhatItRead: the DELETE the agent sends for a leftover entry is the entity the switch
+// returned (match key and priority included): an entry rebuilt from parts of it loses the priority, which
+// tables with ternary or range fields require to be non-zero.
+func ruleClearDeletesWhatItRead(w *World, r *Report, prop, rule string) {
+	f := w.Fn(prop, "pfcpiface.(*P4rtClient).ClearTables")
+	n := 0
+	for _, g := range withClosures(f) {
+		allInstrs(g, func(i ssa.Instruction) {
+			st, ok := i.(*ssa.Store)
+			if !ok {
+				return
+			}
+			fa, ok := st.Addr.(*ssa.FieldAddr)
+			if !ok || fieldVar(fa) == nil || fieldVar(fa).Name() != "Entity" || rootTypeName(fa.X.Type()) != "Update" {
+				return
+			}
+			n++
+			s := symOf(st.Val).String()
+			good := false
+			if ld, ok := st.Val.(*ssa.UnOp); ok {
+				if ia, ok := ld.X.(*ssa.IndexAddr); ok && strings.Contains(symOf(ia.X).String(), "GetEntities") {
+					good = true
+				}
+			}
+			r.check(good, rule, w.FuncName(g), "leftover entries are deleted as they were read", w.Pos(st.Pos()), "Entity ← element of GetEntities()", "the DELETE is sent for "+s+" instead of the entity the switch returned: whatever a rebuilt entry does not copy — the priority — is zero, and a DELETE with priority 0 for a table with ternary or range match fields is malformed")
+		})
+	}
+	r.floor(rule+" updates built in ClearTables", n, 1)
+}
+
+// ruleSliceMeterExact: UP4 programs the converted slice rate and burst as they are: the only constant that may
+// stand in for them is the largest value the field holds.
+func ruleSliceMeterExact(w *World, r *Report, prop, rule string) {
+	f := w.Fn(prop, "pfcpiface.(*UP4).AddSliceInfo")
+	n := 0
+	allInstrs(f, func(i ssa.Instruction) {
+		st, ok := i.(*ssa.Store)
+		if !ok {
+			return
+		}
+		fa, ok := st.Addr.(*ssa.FieldAddr)
+		if !ok || fieldVar(fa) == nil || rootTypeName(fa.X.Type()) != "MeterConfig" {
+			return
+		}
+		name := fieldVar(fa).Name()
+		if name != "Pir" && name != "Pburst" {
+			return
+		}
+		n++
+		seen := map[ssa.Value]bool{}
+		var badK *int64
+		var walk func(v ssa.Value)
+		walk = func(v ssa.Value) {
+			if seen[v] {
+				return
+			}
+			seen[v] = true
+			switch x := v.(type) {
+			case *ssa.Phi:
+				for _, e := range x.Edges {
+					walk(e)
+				}
+			case *ssa.Convert:
+				walk(x.X)
+			case *ssa.Const:
+				if k, isK := constInt(x); isK && k != 9223372036854775807 {
+					badK = &k
+				}
+			}
+		}
+		walk(st.Val)
+		msg := ""
+		if badK != nil {
+			msg = fmt.Sprintf("%s can be the constant %d instead of the converted value: a slice rate or burst above it is programmed as %d while the request is answered 201", name, *badK, *badK)
+		}
+		r.check(badK == nil, rule, w.FuncName(f), name+" is the converted value", w.Pos(st.Pos()), "no smaller constant stands in for it", msg)
+	})
+	r.floor(rule+" peak fields of the UP4 slice meter", n, 2)
+}
+
+// ruleUpdateKeepsCells: while a modification can still be refused the session's installed entries name its
+// meter and counter cells: sendUpdate gives none of them back before modifyUP4ForwardingConfiguration
+// returned without error (a cell in the free pool that an installed entry still uses gets a second owner).
+func ruleUpdateKeepsCells(w *World, r *Report, prop, rule string) {
+	f := w.Fn(prop, "pfcpiface.(*UP4).sendUpdate")
+	mod := w.Fn(prop, "pfcpiface.(*UP4).modifyUP4ForwardingConfiguration")
+	var releases []*ssa.Function
+	for _, nm := range []string{"releaseAppMeterCellID", "releaseSessionMeterCellID", "releaseCounterID"} {
+		releases = append(releases, w.Fn(prop, "pfcpiface.(*UP4)."+nm))
+	}
+	mods := callsTo(f, mod)
+	r.floor(rule+" table writes in sendUpdate", len(mods), 1)
+	n := 0
+	for _, c := range callsIn(f, func(c ssa.CallInstruction) bool { return staticCallee(c) != nil }) {
+		callee := staticCallee(c)
+		reachable := w.CG().Reachable([]*ssa.Function{callee}, nil)
+		hits := ""
+		for _, rel := range releases {
+			if reachable[rel] || callee == rel {
+				hits = rel.Name()
+			}
+		}
+		if hits == "" {
+			continue
+		}
+		n++
+		site := c.(ssa.Instruction)
+		good := false
+		for _, m := range mods {
+			mc, ok := m.(*ssa.Call)
+			if ok && instrDominates(mc, site) && errGuarded(f, mc, mc, func(i ssa.Instruction) bool { return i == site }) {
+				good = true
+			}
+		}
+		r.check(good, rule, w.FuncName(f), "cells are given back only after the modification was written", w.Pos(c.Pos()), "behind modifyUP4ForwardingConfiguration() == nil", callee.Name()+" (which reaches "+hits+") runs before the modification is known to be accepted: when a write of the request fails it is refused, but the session's installed entries still name cells that are already back in the pool — after further attaches such a cell has two owners")
+	}
+	r.Extra[rule+"_release_reaching_calls_in_sendUpdate"] = n
+}
